@@ -89,7 +89,7 @@ def run_check(prop, tier, seed):
     try:
         if cross:
             # the same seeds under several hash classes: groups of workers share a slice
-            k = 4
+            k = 4 if tier == "quick" else 16
             groups = max(1, NPROC // k)
             per = max(1, runs // groups)
             for g in range(groups):
